@@ -8,6 +8,7 @@ import (
 	"io"
 	"os"
 	"path/filepath"
+	"regexp"
 	"runtime"
 	"sort"
 	"strings"
@@ -47,15 +48,20 @@ type ModelObs struct {
 
 // Shared is the cached result of one oracle run.
 type Shared struct {
-	Tier        string                 `json:"tier"`
-	Seed        int64                  `json:"seed"`
-	Stamp       string                 `json:"stamp"`
-	Evaluations int                    `json:"evaluations"`
-	Files       int                    `json:"files"`
-	Packages    map[string]int         `json:"packages"` // stream -> count
-	Checkers    int                    `json:"checkers"`
-	Variants    int                    `json:"variants"`
-	Diagnostics int                    `json:"diagnostics"`
+	Tier        string         `json:"tier"`
+	Seed        int64          `json:"seed"`
+	Stamp       string         `json:"stamp"`
+	Evaluations int            `json:"evaluations"`
+	Files       int            `json:"files"`
+	Packages    map[string]int `json:"packages"` // stream -> count
+	Checkers    int            `json:"checkers"`
+	Variants    int            `json:"variants"`
+	Diagnostics int            `json:"diagnostics"`
+	// measured distinctness: (checker variant, file) runs that produced at least one diagnostic or a panic,
+	// distinct (checker, message with literals and identifiers masked) shapes, distinct (checker, subject callee text)
+	FiringRuns  map[string]bool        `json:"firing_runs"`
+	DiagShapes  map[string]bool        `json:"diag_shapes"`
+	SubjectSeen map[string]bool        `json:"subject_seen"`
 	Fired       map[string]int         `json:"fired"` // checker -> diagnostics
 	SubjectDiag map[string]int         `json:"subject_diag"`
 	C20Checked  int                    `json:"c20_checked"`
@@ -201,7 +207,7 @@ type c01Hit struct {
 
 func compute(tier string, seed int64, dir string) *Shared {
 	t0 := time.Now()
-	s := &Shared{Tier: tier, Seed: seed, Packages: map[string]int{}, Fired: map[string]int{}, SubjectDiag: map[string]int{},
+	s := &Shared{Tier: tier, Seed: seed, Packages: map[string]int{}, Fired: map[string]int{}, SubjectDiag: map[string]int{}, FiringRuns: map[string]bool{}, DiagShapes: map[string]bool{}, SubjectSeen: map[string]bool{},
 		Mutants: map[string]int{}, CaseFiles: map[string][]string{}, TieStats: map[string]interface{}{}}
 	infos := Infos()
 	variants := Variants(infos)
@@ -248,6 +254,9 @@ func compute(tier string, seed int64, dir string) *Shared {
 				s.fail("C01", "C01/"+name+"/constructor-error", fmt.Sprintf("NewChecker(%s) failed: %s", v, out.Err), map[string]interface{}{"checker": v.String()})
 				continue
 			}
+			if out.Panic != nil || out.Timeout || len(out.Diags) > 0 {
+				s.FiringRuns[v.String()+"|"+fr.pkg.Name+"/"+fr.file.Name] = true
+			}
 			if out.Panic != nil || out.Timeout {
 				hits = append(hits, c01Hit{fr.pkg, fr.file, v, i, out})
 				if v.Tag == "" {
@@ -276,6 +285,7 @@ func compute(tier string, seed int64, dir string) *Shared {
 			for _, d := range out.Diags {
 				s.Diagnostics++
 				s.Fired[name]++
+				s.DiagShapes[name+"|"+shapeOf(d.Text)] = true
 				for _, f7 := range CheckC07(fr.file, st, d) {
 					s.fail("C07", "C07/"+name+"/"+f7.Class, fmt.Sprintf("%s on %s/%s: %s", v, fr.pkg.Name, fr.file.Name, f7.What),
 						map[string]interface{}{"package": fr.pkg.Name, "file": fr.file.Name, "checker": v.String(), "position": posStr(d.Pos),
@@ -284,6 +294,7 @@ func compute(tier string, seed int64, dir string) *Shared {
 				if len(SubjectsOf(name)) > 0 {
 					s.SubjectDiag[name]++
 					s.C20Checked++
+					s.SubjectSeen[name+"|"+fr.pkg.Name+"|"+sourceLine(fr.file, d)] = true
 					if f20 := CheckC20(fr.pkg, fr.file, name, d); f20 != nil {
 						if v.Tag == "" {
 							run.Namesake[name] = append(run.Namesake[name], tf.Offset(d.Pos))
@@ -383,6 +394,16 @@ func (s *Shared) fail(prop, key, what string, w interface{}) {
 	}
 }
 
+var (
+	shapeQuoted = regexp.MustCompile("`[^`]*`")
+	shapeNum    = regexp.MustCompile(`[0-9]+`)
+)
+
+// shapeOf masks the instance-specific parts of a diagnostic text.
+func shapeOf(text string) string {
+	return shapeNum.ReplaceAllString(shapeQuoted.ReplaceAllString(text, "`_`"), "N")
+}
+
 // MetaFor projects the shared run on one property.
 func MetaFor(prop string, s *Shared, dir, outDir string) *common.Meta {
 	m := &common.Meta{Property: prop, Evaluations: s.Evaluations}
@@ -411,16 +432,16 @@ func MetaFor(prop string, s *Shared, dir, outDir string) *common.Meta {
 	}
 	switch prop {
 	case "C01":
-		m.Distinct = s.Files * s.Checkers
-		m.Rule = "every Check call (checker variant x file) must return under recover within the watchdog; a panic/timeout is a failure keyed C01/<checker>/<panic kind>@<function>"
+		m.Distinct = len(s.FiringRuns)
+		m.Rule = "every Check call (checker variant x file) must return under recover within the watchdog; a panic/timeout is a failure keyed C01/<checker>/<panic kind>@<function>; distinct_nontrivial = distinct (checker variant, file) runs in which the checker reached its reporting code (>= 1 diagnostic) or panicked"
 	case "C07":
 		m.Evaluations = s.Diagnostics
-		m.Distinct = s.Diagnostics
-		m.Rule = "every diagnostic: valid position in the analysed file at a go/scanner token or comment start; fix range non-inverted inside the file; text non-empty without %!, <nil>, PANIC=, BadExpr"
+		m.Distinct = len(s.DiagShapes)
+		m.Rule = "distinct_nontrivial = distinct (checker, message shape) pairs, a shape being the text with quoted code, identifiers after a back-quote and numbers masked; every diagnostic: valid position in the analysed file at a go/scanner token or comment start; fix range non-inverted inside the file; text non-empty without %!, <nil>, PANIC=, BadExpr"
 	case "C20":
 		m.Evaluations = s.C20Checked
-		m.Distinct = len(s.SubjectDiag)
-		m.Rule = "every diagnostic of a subject-bearing checker: the callee spelled like the subject at/around the position must resolve (types.Info.Uses) to the universe builtin or to the documented package"
+		m.Distinct = len(s.SubjectSeen)
+		m.Rule = "distinct_nontrivial = distinct (checker, package, flagged source line) triples among subject-bearing diagnostics; every diagnostic of a subject-bearing checker: the callee spelled like the subject at/around the position must resolve (types.Info.Uses) to the universe builtin or to the documented package"
 		m.Distribution["diagnostics_per_subject_checker"] = s.SubjectDiag
 	}
 	return m
